@@ -421,3 +421,84 @@ class CompoundResponseCheck:
         if hash(tuple(map(str, s.ex.decisions))) % 37 == 0:
             rec['sample'] = {'message': s.msg}
         return rec
+
+
+# ----------------------------------------------------------------------------- numbers through the capacity-limited writer
+def _rust_float_text(x, ty):
+    """Display of a finite f32/f64 in Rust: the shortest digits that round-trip, in positional notation (never an exponent)"""
+    import struct
+    from decimal import Decimal
+    if ty == 'f32':
+        import numpy as np
+        d = Decimal(np.format_float_scientific(np.float32(x), unique=True, trim='-'))
+    else:
+        d = Decimal(repr(x))
+    t = format(d, 'f')
+    if '.' in t:
+        t = t.rstrip('0').rstrip('.')
+    if t in ('-0', '0') and str(x).startswith('-'):
+        t = '-0'
+    return t
+
+
+NUMERIC_CASES = [
+    ('RF64', 'f64', 1e32), ('RF64', 'f64', -1e31), ('RF64', 'f64', 1e100), ('RF64', 'f64', 1.2345678901234567e-15), ('RF64', 'f64', 1e-30), ('RF64', 'f64', 1.5), ('RF64', 'f64', -0.0),
+    ('RF64', 'f64', 123456789012345680000.0), ('RF32', 'f32', 3.4028234663852886e38), ('RF32', 'f32', 1e-20), ('RF32', 'f32', 16777216.0), ('RF32', 'f32', -2.5),
+    ('RU64', 'u64', 2 ** 64 - 1), ('RI64', 'i64', -2 ** 63), ('RI64', 'i64', 2 ** 63 - 1), ('RUS', 'usize', 2 ** 64 - 1), ('RIS', 'isize', -2 ** 63), ('RU32', 'u32', 2 ** 32 - 1),
+    ('RI32', 'i32', -2 ** 31), ('RI16', 'i16', -32768), ('RU16', 'u16', 65535), ('RI8', 'i8', -128), ('RU8', 'u8', 255),
+]
+
+
+class NumericWriterCheck:
+    """C04 'the bytes are the same for every writer that has room': concrete numeric extremes (long float texts, integer bounds) through the
+    real Write impl of heapless::Vec<u8, 256> from MIR and through the pass-through writer; expected text from an independent formatter"""
+
+    def __init__(s, world, params):
+        s.w, s.ex = world, world.ex
+        s.twin = params.get('twin', False)
+
+    def body(s):
+        import struct
+        ex, w = s.ex, s.w
+        i = ex.decide([(k, True) for k in range(len(NUMERIC_CASES))])
+        q, ty, x = NUMERIC_CASES[i]
+        s.case = NUMERIC_CASES[i]
+        writer = ex.decide([(0, True), (1, True)])
+        if ty in ('f32', 'f64'):
+            bits = struct.unpack('<I', struct.pack('<f', x))[0] if ty == 'f32' else struct.unpack('<Q', struct.pack('<d', x))[0]
+            val = FloatVal(bits, ty)
+            text = _rust_float_text(x, ty)
+            s.token = f'{ty}:{bits}'
+        else:
+            val = x
+            text = str(x)
+            s.token = f'int:{x}'
+        dev = w.new_device('TR')
+        dev.f[0].script[0] = ('ok', val)
+        wr = PassWriter() if writer == 0 else HVec(256)
+        s.writer = 'pass' if writer == 0 else 'heapless'
+        w.run(dev, list((q + '?\n').encode()), wr)
+        out = list(wr.items)
+        exp = list(text.encode()) + [10] + ([10] if s.twin else [])
+        got = bytes(x if isinstance(x, int) else 63 for x in out) if all(isinstance(x, int) for x in out) else None
+        viol = None
+        if got is None or list(got) != exp:
+            viol = (f'response {show(out)} differs from the expected text {text}', None)
+        elif errors_of(dev):
+            viol = ('an error was reported for a successful query', None)
+        return {'viol': viol}
+
+    def on_leaf(s, out):
+        rec = {'kind': out[0], 'query': s.case[0]}
+        v = None
+        if out[0] == 'ok':
+            v = out[1]['viol']
+            rule = 'TWIN' if s.twin else 'RESPONSE'
+        else:
+            v = (out[1], None)
+            rule = out[0].upper()
+        if v:
+            rec['violations'] = [{'rule': rule, 'what': f'{s.case[0]}? returning {s.case[2]!r} through the {s.writer} writer: {v[0]}', 'input': (s.case[0] + '?\n').encode().hex(), 'device': 'TR',
+                                  'script': {'0': ['ok', s.token]}, 'writer': s.writer, 'role': f'{rule}:numeric:{s.writer}'}]
+        rec['sample'] = {'query': s.case[0] + '?', 'returned': repr(s.case[2]), 'writer': s.writer}
+        return rec
